@@ -40,7 +40,7 @@ ASSUMPTIONS = [
     "frame-indifference tolerance 1e-7*(1+scale) with Newton tolerance 1e-10",
 ]
 REQUIRED_PROBES = {"quick": ["static_with_initial_velocities", "cantilever_solved", "frame_indifference_checked", "riks_points_checked", "signorini_static_closed", "fault_fired", "rigid_static_solved"]}
-KINDS = ["cantilever", "cantilever", "frame", "rigid", "signorini", "riks_truss", "riks_cantilever", "cantilever_fault", "frame", "signorini_linear"]
+KINDS = ["cantilever", "cantilever", "frame", "rigid", "signorini", "riks_truss", "riks_cantilever", "cantilever_fault", "frame", "signorini_linear", "rigid_pd"]
 
 
 def gen(rng, tier, index):
@@ -81,6 +81,31 @@ def gen(rng, tier, index):
                 if rng.random() < 0.5:
                     lw.update(type="kv", d=float(rng.uniform(1, 10)))
             plan["moving_initial_state"] = True
+    elif kind == "rigid_pd":
+        # a pendulum held against gravity by a feedback actuator (PD / PID controller whose target angle is ramped with the
+        # load parameter) or an open-loop motor: the actuator force depends on the configuration being solved for
+        L, m = float(rng.uniform(0.3, 1.0)), float(rng.uniform(0.5, 2.0))
+        b = {"kind": "rigid", "m": m, "theta": [0.05, 0.06, 0.07], "r": [L, 0.0, 0.0], "p": [1.0, 0, 0, 0], "v": [0, 0, 0], "w": [0, 0, 0]}
+        x = rng.random()
+        if x < 0.6:
+            act = {"type": "pd", "joint": 0, "kp": float(rng.uniform(10, 60)), "kd": float(rng.uniform(0.1, 1)), "target": [float(rng.uniform(-1.0, 1.0)), 0.0], "time": "ramp"}
+        elif x < 0.8:
+            act = {"type": "pid", "joint": 0, "kp": float(rng.uniform(10, 60)), "ki": 0.0, "kd": float(rng.uniform(0.1, 1)), "target": [float(rng.uniform(-1.0, 1.0)), 0.0], "time": "ramp", "q0": 0.0}
+        else:
+            act = {"type": "motor", "joint": 0, "tau": float(rng.uniform(-0.8, 0.8) * m * 9.81 * L), "time": "ramp"}
+        plan["scene"] = {
+            "t0": 0.0,
+            "bodies": [b],
+            "frames": [],
+            "joints": [{"type": "revolute", "a": "origin", "b": ["body", 0], "axis": 1, "rJ": [0, 0, 0], "pJ": None, "angle0": 0.0}],
+            "tpis": [],
+            "laws": [{"type": "spring", "on": ["joint", 0], "k": float(rng.uniform(0.0, 5.0)), "l_ref": 0.0, "compliance": bool(rng.random() < 0.3)}],
+            "actuators": [act],
+            "forces": [],
+            "contacts": [],
+            "gravity": [0.0, 0.0, -9.81 * float(rng.uniform(0.0, 1.0))],
+        }
+        plan["n_load_steps"] = int(rng.integers(2, 7))
     elif kind == "signorini_linear":
         # linear structures (bodies on prismatic guides and axial springs) whose contacts close in the MIDDLE of a load
         # step: Newton's update computed with the old contact state is exact, the contact state changes in the last
@@ -330,6 +355,17 @@ def execute(plan, out, log):
                                 )
                                 return
                     out["probes"]["frame_indifference_checked"] += 1
+            elif kind == "rigid_pd":
+                B = build(plan["scene"], options=SolverOptions(compute_consistent_initial_conditions=False))
+                system = B.system
+                sol, opts = _solve_newton(system, plan, sim)
+                if sim.failed_instances():
+                    raise Discard("organic_nonconvergence")
+                if not check_points(system, sol, opts, out, "pendulum_with_actuator/" + plan["scene"]["actuators"][0]["type"], "pendulum held by an actuator"):
+                    return
+                out["probes"]["static_with_feedback_actuator" if plan["scene"]["actuators"][0]["type"] != "motor" else "static_with_motor"] += 1
+                moved_last = float(np.max(np.abs(np.asarray(sol.q)[-1] - system.q0)))
+                out["steps"] = len(sol.t)
             elif kind == "rigid":
                 B = build(plan["scene"], options=SolverOptions(compute_consistent_initial_conditions=False))
                 system = B.system
